@@ -152,6 +152,12 @@ func c09GenKnobs(rng *rand.Rand, i int) c09Knobs {
 type c09Finding struct {
 	Sig    string
 	Detail string
+	// ShapeOf: node whose concurrency shape (overlapping-stops / sequential / ...)
+	// is appended to Sig once the whole operation log is known
+	ShapeOf string
+	// the stop call the verdict belongs to (target and [call, return] interval)
+	ShapeTarget string
+	ShapeCall, ShapeRet int64
 }
 
 type c09Obs struct {
@@ -191,6 +197,12 @@ type c09Case struct {
 func (c *c09Case) find(sig, format string, args ...any) {
 	c.mu.Lock()
 	c.finds = append(c.finds, c09Finding{Sig: sig, Detail: fmt.Sprintf(format, args...)})
+	c.mu.Unlock()
+}
+
+func (c *c09Case) findShaped(sig, node string, op *c09Op, format string, args ...any) {
+	c.mu.Lock()
+	c.finds = append(c.finds, c09Finding{Sig: sig, Detail: fmt.Sprintf(format, args...), ShapeOf: node, ShapeTarget: op.Target, ShapeCall: op.Call, ShapeRet: op.Ret})
 	c.mu.Unlock()
 }
 
@@ -284,7 +296,7 @@ func (c *c09Case) afterStopReturned(op *c09Op, target *c09Node) {
 		}
 		c.immChecks.Add(1)
 		if n.pid.IsRunning() {
-			c.find("running-after-stop-returned:"+op.Kind, "%s returned, yet %s (subtree of %s) IsRunning()", op.String(), n.name, target.name)
+			c.findShaped("running-after-stop-returned:"+op.Kind, n.name, op, "%s returned, yet %s (subtree of %s) IsRunning()", op.String(), n.name, target.name)
 		}
 		var got *PID
 		err, pan := c09Guard(func() error {
@@ -305,7 +317,11 @@ func (c *c09Case) afterStopReturned(op *c09Op, target *c09Node) {
 			if n != target {
 				rel = "descendant"
 			}
-			c.find("resolvable-after-stop:immediate-"+state+":"+op.Kind+":"+rel, "%s returned at #%d, and ActorOf(%q) at #%d still resolves (pid running=%v, same pid=%v)", op.String(), op.Ret, n.name, c.lg.seq.Load(), got.IsRunning(), got == n.pid)
+			shapeOf := ""
+			if state == "running" {
+				shapeOf = n.name
+			}
+			c.findShaped("resolvable-after-stop:immediate-"+state+":"+op.Kind+":"+rel, shapeOf, op, "%s returned at #%d, and ActorOf(%q) at #%d still resolves (pid running=%v, same pid=%v)", op.String(), op.Ret, n.name, c.lg.seq.Load(), got.IsRunning(), got == n.pid)
 		}
 	}
 }
@@ -895,6 +911,46 @@ func (c *c09Case) judge(evs []c09Ev, ops []c09Op, obs *c09Obs, treeAvailable boo
 			}
 		}
 	}
+	// immediate "still running" verdicts: name the concurrency shape around the node.
+	// "overlapping-stops" is kept for the case where another caller was concurrently
+	// stopping the node itself or something strictly between the call's target and the
+	// node (the ancestor's stop then skips that part without waiting for it); when only
+	// the call's own target (or an ancestor of it) was being stopped by somebody else,
+	// the call has to wait for that stop, and the shape is named separately.
+	c.mu.Lock()
+	for i := range c.finds {
+		f := &c.finds[i]
+		if f.ShapeOf == "" {
+			continue
+		}
+		how := shape(f.ShapeOf, nil)
+		if how == "overlapping-stops" && f.ShapeTarget != "" {
+			below, onTarget := false, false
+			for _, o := range ops {
+				if o.Kind == "spawn" || o.Kind == "restart" || o.Kind == "system-stop" {
+					continue
+				}
+				if o.Call == f.ShapeCall && o.Target == f.ShapeTarget {
+					continue // the call itself
+				}
+				if !(o.Call < f.ShapeRet && f.ShapeCall < o.Ret) {
+					continue
+				}
+				switch {
+				case o.Target == f.ShapeTarget || c09IsAncestor(o.Target, f.ShapeTarget):
+					onTarget = true
+				case c09IsAncestor(f.ShapeTarget, o.Target) && (o.Target == f.ShapeOf || c09IsAncestor(o.Target, f.ShapeOf)):
+					below = true
+				}
+			}
+			if !below && onTarget {
+				how = "target-stopped-concurrently"
+			}
+		}
+		f.Sig += ":" + how
+		f.ShapeOf = ""
+	}
+	c.mu.Unlock()
 	if !treeAvailable {
 		return
 	}
